@@ -70,6 +70,7 @@ class Gen:
         self.ctx = ''             # '' ordinary, '@' you, '!' defeat
         self.budget = 0
         self.bumpers = []         # (function name, global it modifies, global's type)
+        self.array_helpers = False
 
     # ------------------------------------------------------------ helpers
     def fresh(self, p='v'):
@@ -225,7 +226,24 @@ class Gen:
             return '((%s %s %s()) is int)' % (g, self.r.choice(['<', '>', '==', '!=', '<=', '>=']), fn)
         return '(%s / (%s() %% 5 + 7))' % (g, fn)
 
+    def helper_call(self, typ, depth):
+        """a call whose argument is a fresh array literal (a literal allocated inside an expression)"""
+        if not self.array_helpers or self.in_spec and False:
+            return None
+        n = self.r.randrange(1, 4)
+        if typ == 'int':
+            return 'asum([%s])' % ', '.join(self.int_expr(depth + 1, depth < 2) for _ in range(n))
+        if typ == 'bool':
+            return 'aany([%s])' % ', '.join(self.bool_expr(depth + 1, depth < 2) for _ in range(n))
+        if typ == 'byte':
+            return 'alast([%s])' % ', '.join(self.byte_expr(depth + 1, False) for _ in range(n))
+        return None
+
     def int_expr(self, depth, deep):
+        if deep and self.array_helpers and self.chance(0.06):
+            e = self.helper_call('int', depth)
+            if e:
+                return e
         if deep and self.bumpers and self.chance(0.12):
             e = self.interference()
             if e:
@@ -280,6 +298,10 @@ class Gen:
         return '(%s ?? %s)' % (l, r)
 
     def bool_expr(self, depth, deep):
+        if deep and self.array_helpers and self.chance(0.04):
+            e = self.helper_call('bool', depth)
+            if e:
+                return e
         if not deep or self.chance(0.25):
             v = self.var_of('bool')
             if v and self.chance(0.6):
@@ -413,6 +435,11 @@ class Gen:
         return None
 
     def array_literal(self, el, n, depth):
+        if el == 'bool' and n >= 8 and self.chance(0.5):
+            items = ['false'] * n
+            for _ in range(self.r.randrange(0, 3)):
+                items[self.r.randrange(n)] = self.r.choice(['true', self.bool_expr(depth + 1, False)])
+            return '[' + ', '.join(items) + ']', n
         if el == 'string':
             items = [self.string_expr(depth + 1, False) for _ in range(n)]
         else:
@@ -572,6 +599,18 @@ class Gen:
     def s_elem_assign(self, ind):
         vs = self.vars(lambda v: isinstance(v.type, Arr) and not v.type.const and v.init)
         self.r.shuffle(vs)
+        cands = [b for b in self.bumpers if '[' not in b[1] and self.cur is not None and self.cur.name != b[0]]
+        if cands and self.chance(0.3):
+            for v in vs:
+                if v.length and v.type.el in ('int', 'byte'):
+                    fn, g, _ = self.r.choice(cands)
+                    n = v.length
+                    rhs = '%s()' % fn if (v.type.el == 'int' or fn.startswith('bbump')) else '(%s() is byte)' % fn
+                    op = self.r.choice(['=', '=', '+='])
+                    if v.type.el == 'byte' and op == '+=':
+                        op = '='
+                    self.emit('%s[((%s %% %d + %d) %% %d)] %s %s;' % (v.name, g, n, n, n, op, rhs), ind)
+                    return False
         for v in vs:
             i = self.index_for(v)
             if i is None:
@@ -757,6 +796,11 @@ class Gen:
                     self.emit('%s%s[] %s = [%s];' % ('const ' if const else '', el, name, ', '.join(lits() for _ in range(n))), 0)
                     self.globals.append(Var(name, Arr(el, const), True, n, True, True))
         self.emit('', 0)
+        if 'arrays' in f and 'calls' in f:
+            self.emit('int asum(const int[] v) { int s = 0; for (int i = 0; i < v.length; i += 1) { s += v[i]; } return s; }', 0)
+            self.emit('bool aany(const bool[] v) { for (int i = 0; i < v.length; i += 1) { if (v[i]) { return true; } } return false; }', 0)
+            self.emit('byte alast(const byte[] v) { return v[v.length - 1]; }', 0)
+            self.array_helpers = True
         # functions that assign a global and return something derived from it
         if 'globals' in f and 'calls' in f:
             for v in [v for v in self.globals if v.type == 'int' and not v.const][:2]:
@@ -764,6 +808,9 @@ class Gen:
                 k = r.choice([1, 2, 5, 10])
                 self.emit('int %s() { %s = %s %s %d; return %s %s %d; }' % (name, v.name, v.name, r.choice(['+', '*', '-']), k, v.name, r.choice(['-', '+']), r.choice([0, 1, 3])), 0)
                 self.bumpers.append((name, v.name, 'int'))
+                bname = 'bbump%d' % len(self.bumpers)
+                self.emit('byte %s() { %s = %s + %d; return (%s is byte); }' % (bname, v.name, v.name, k, v.name), 0)
+                self.bumpers.append((bname, v.name, 'int'))
             for v in [v for v in self.globals if isinstance(v.type, Arr) and v.type.el == 'int' and not v.type.const][:1]:
                 name = 'abump%d' % len(self.bumpers)
                 self.emit('int %s() { %s[0] = %s[0] + 3; return %s[0]; }' % (name, v.name, v.name, v.name), 0)
